@@ -1,0 +1,18 @@
+//go:build verif
+
+package hub
+
+import (
+	"github.com/enbility/ship-go/api"
+)
+
+// More hooks for the verification harness in /verif (build tag "verif"). Add-only.
+
+// VerifPrepareConnectionInitation does what the delayed dial goroutine spawned by
+// coordinateConnectionInitations does when its delay has elapsed, now and on the
+// caller's goroutine: it runs prepareConnectionInitation with the counter value the
+// goroutine captured. (The harness sets delay ranges so long that the goroutine's own
+// timer never expires during a run.)
+func (h *Hub) VerifPrepareConnectionInitation(ski string, counter int, entry *api.MdnsEntry) {
+	h.prepareConnectionInitation(ski, counter, entry)
+}
